@@ -30,7 +30,9 @@ import (
 	"verifsim/props"
 	_ "verifsim/shapes/doc"
 	_ "verifsim/shapes/flat"
+	_ "verifsim/shapes/flatb"
 	_ "verifsim/shapes/nested"
+	_ "verifsim/shapes/nestedb"
 	_ "verifsim/shapes/person"
 	_ "verifsim/shapes/rep3"
 )
@@ -48,6 +50,8 @@ func main() {
 		os.Exit(cmdReplay(os.Args[2:]))
 	case "fingerprint":
 		os.Exit(cmdFingerprint(os.Args[2:]))
+	case "solo":
+		os.Exit(cmdSolo())
 	default:
 		fatal2("unknown command " + os.Args[1])
 	}
@@ -649,4 +653,22 @@ func firstLines(s string, n int) string {
 		lines = lines[:n]
 	}
 	return strings.Join(lines, "\n")
+}
+
+// cmdSolo is the child of the C13 fresh-process arm: it executes one order of
+// instances in this fresh process and prints their output digests.
+func cmdSolo() int {
+	runtime.GOMAXPROCS(1)
+	var c core.Case
+	dec := json.NewDecoder(os.Stdin)
+	if err := dec.Decode(&c); err != nil {
+		fatal2(err.Error())
+	}
+	rs, err := props.RunSolo(&c)
+	if err != nil {
+		fatal2(err.Error())
+	}
+	b, _ := json.Marshal(rs)
+	os.Stdout.Write(b)
+	return 0
 }
